@@ -26,7 +26,79 @@ STATUSES = ['active', 'provisional', 'deprecated', 'weird status', 'presupposed'
 
 
 def plan(tier, seed):
-    return [{'seed': seed * 1000003 + i} for i in range(N[tier])]
+    return [{'seed': seed * 1000003 + i} for i in range(N[tier])] + [{'seed': seed * 1000003 + 777000 + i, 'kind': 'ascii-locale'}
+                                                                      for i in range(2 if tier == 'quick' else 12)]
+
+
+ASCII_LOCALE_SCRIPT = r'''
+import json, sys
+import wn
+wn.config.data_directory = sys.argv[1]
+out = {}
+try:
+    for f in sys.argv[3:]:
+        wn.add(f, progress_handler=None)
+    out['ilis'] = sorted([i.id, i.status, i.definition()] for i in wn.ilis() if i.id)
+    out['definitions'] = sorted([s.id, s.definition()] for s in wn.synsets())
+    wn.export(wn.lexicons(), sys.argv[2])
+    wn.remove('*', progress_handler=None)
+    wn.add(sys.argv[2], progress_handler=None)
+    out['after_export'] = sorted([s.id, s.definition()] for s in wn.synsets())
+except Exception as exc:
+    out['error'] = type(exc).__name__ + ': ' + str(exc)[:200]
+print(json.dumps(out))
+'''
+
+
+def ascii_locale(case, rec):
+    """The same index and lexicon files read by a process whose locale encoding is ASCII (LC_ALL=C, UTF-8 mode and locale
+    coercion off): the files are UTF-8 whatever the locale says, so statuses, definitions and the exported file must
+    come out as in this process."""
+    import json
+    import os
+    import subprocess
+    import sys
+    r = random.Random(case['seed'])
+    work = env.mkdtemp('c19loc')
+    try:
+        texts = ['définition ü', '猫の定義', 'ελληνικά', 'naïve café', 'plain ascii']
+        r.shuffle(texts)
+        synsets = [{'id': f'lo-ss{j}', 'ili': f'i{j}', 'partOfSpeech': 'n', 'meta': None, 'definitions': [{'text': texts[j % len(texts)] + f' {j}', 'meta': None}]}
+                   for j in range(4)]
+        lex = {'id': 'lo', 'label': 'localé', 'language': 'fr', 'email': 'e', 'license': 'l', 'version': '1', 'meta': None, 'synsets': synsets}
+        lp = wnio.write_resource({'lmf_version': '1.0', 'lexicons': [lex]}, work, random.Random(1), name='lo.xml', surface='plain')
+        rows = [(f'i{j}', r.choice(['active', 'deprecated']), texts[(j + 1) % len(texts)] + f' index {j}') for j in r.sample(range(6), 4)]
+        ip = work / 'index.tsv'
+        ip.write_text('ili\tstatus\tdefinition\n' + ''.join('\t'.join(row) + '\n' for row in rows), encoding='utf-8')
+        files = [str(ip), str(lp)] if r.random() < 0.5 else [str(lp), str(ip)]
+        script = work / 'run.py'
+        script.write_text(ASCII_LOCALE_SCRIPT)
+        outs = {}
+        for label, extra in (('utf-8', {'PYTHONUTF8': '1'}), ('ascii-locale', {'LC_ALL': 'C', 'LANG': 'C', 'PYTHONUTF8': '0', 'PYTHONCOERCECLOCALE': '0'})):
+            d = work / f'db-{label}'
+            d.mkdir()
+            e = {k_: v for k_, v in os.environ.items() if not k_.startswith('LC_') and k_ not in ('LANG', 'PYTHONUTF8', 'PYTHONIOENCODING')}
+            e.update(extra, PYTHONPATH=str(env.REPO))
+            p_ = subprocess.run([sys.executable, str(script), str(d), str(work / f'export-{label}.xml')] + files, env=e, capture_output=True,
+                                text=True, timeout=600)
+            try:
+                outs[label] = json.loads(p_.stdout.strip().splitlines()[-1])
+            except Exception:
+                rec.harness_errors.append(f'ascii-locale scenario ({label}): rc {p_.returncode} {p_.stderr[-800:]}')
+                return
+        rec.event('ascii-locale.compared')
+        want_ilis = {f'i{j}': ['presupposed', None] for j in range(4)}
+        for i_, st, df in rows:
+            want_ilis[i_] = [st, df]
+        want = sorted([k_] + v for k_, v in want_ilis.items() if k_ in {f'i{j}' for j in range(4)})
+        if outs['utf-8'].get('error') or outs['utf-8'].get('ilis') != want:
+            rec.violation('ili-table', f"statuses/definitions of the ILIs the lexicon uses: {outs['utf-8'].get('error') or outs['utf-8'].get('ilis')}, expected {want}")
+        if outs['ascii-locale'] != outs['utf-8']:
+            rec.violation('locale-dependent', f"under an ASCII locale the same files give {json.dumps(outs['ascii-locale'])[:500]}, under UTF-8 "
+                          f"{json.dumps(outs['utf-8'])[:300]}")
+    finally:
+        env.rmtree(work)
+    rec.done(['ascii-locale', case['seed']], nontrivial=True, sample={'files': 'index + lexicon with non-ASCII definitions, ASCII locale'})
 
 
 def ili_file(r, pool):
@@ -153,6 +225,8 @@ def run_ops(rec, ops, lexres, paths, ilifiles, final_only=False):
 
 
 def run_case(case, rec):
+    if case.get('kind') == 'ascii-locale':
+        return ascii_locale(case, rec)
     import wn._add as wnadd
     old_batch = getattr(wnadd, 'BATCH_SIZE', None)
     if old_batch is not None and case['seed'] % 4:
